@@ -133,8 +133,30 @@ def run(ck):
 
     cp = P.fn(KT + 'closest_peers')
     ck.touch(cp)
-    cpush = [c for c in cp.calls(rx(r'vector<.*Candidate.*::push_back$'))]
-    ck.floor('C07.closest', 'candidate insertions', len(cpush), 1)
+    cpush = [c for c in cp.calls(rx(r'vector<.*Candidate.*::(push_back|emplace_back)$'))]
+    # completeness: every live contact of every bucket becomes a candidate — the insertion sits directly in
+    # for (bucket : buckets_) for (contact : bucket) with no exit other than the expired-`continue`
+    nested = [(g, c) for g in P.with_lambdas(cp) if g is not cp for c in g.calls(rx(r'vector<.*Candidate.*::(push_back|emplace_back)$'))]
+    ck.floor('C07.closest', 'candidate insertions', len(cpush) + len(nested), 1)
+    complete = bool(cpush) and not nested
+    for c in cpush:
+        lps = [a for a in cp.ancestors(c) if cp.nodes[a]['k'] in ('CXXForRangeStmt', 'ForStmt', 'WhileStmt', 'DoStmt')]
+        ok_nest = len(lps) == 2 and all(cp.nodes[l]['k'] == 'CXXForRangeStmt' for l in lps) and \
+            cp.nodes[cp.strip(cp.nodes[lps[1]]['range'])].get('m') == KT + 'buckets_' and \
+            cp.nodes[cp.strip(cp.nodes[lps[0]]['range'])].get('d') == cp.nodes[cp.nodes[lps[1]]['var']]['d']
+        exits = [j for j in cp.walk(lps[-1]) if cp.nodes[j]['k'] in ('BreakStmt', 'ReturnStmt', 'GotoStmt')] if lps else [0]
+        conts = [j for j in cp.walk(lps[-1]) if cp.nodes[j]['k'] == 'ContinueStmt'] if lps else []
+        cont_ok = True
+        for j in conts:
+            gi = [a for a in cp.ancestors(j) if cp.nodes[a]['k'] == 'IfStmt']
+            cond = cp.nodes[gi[0]]['cond'] if gi else None
+            cont_ok = cont_ok and cond is not None and cp.nodes[cp.strip(cond)].get('callee') == ANON + 'expired'
+        complete = complete and ok_nest and not exits and cont_ok
+    ck.ob('C07.closest', 'C07.closest/complete', complete, cp.loc(),
+          'every unexpired contact of every bucket is ranked: the candidate insertion sits in for (bucket : buckets_) for (contact : bucket) '
+          'with no break/return and only the expired-`continue` (an early stop by count would miss nearer live peers)')
+    if not cpush:
+        return
 
     def live(fact):
         kind, node, val = fact
